@@ -143,10 +143,17 @@ impl<L: Language, N: Analysis<L>> EGraph<L, N> {
 impl<L: Language, N: Analysis<L>> EGraph<L, N> {
     // returns a syn applied id.
     fn mk_singleton_class(&mut self, syn_enode: L) -> AppliedId {
-        let old_slots = syn_enode.slots();
-
-        let fresh_to_old = Bijection::bijection_from_fresh_to(&old_slots);
-        let old_to_fresh = fresh_to_old.inverse();
+        // The class's parameter slots are allocated in the order in which the slots occur in the e-node,
+        // not in the order of the (user-chosen) slot names: the e-graph must not depend on how slots are named.
+        let mut fresh_to_old = Bijection::new();
+        let mut old_to_fresh = Bijection::new();
+        for s in syn_enode.public_slot_occurrences() {
+            if !old_to_fresh.contains_key(s) {
+                let f = Slot::fresh();
+                fresh_to_old.insert(f, s);
+                old_to_fresh.insert(s, f);
+            }
+        }
 
         // allocate new class & slot set.
         let fresh_slots = old_to_fresh.values();
